@@ -1,1 +1,234 @@
-/-! # C20 — property theorems (not built yet) -/
+import RsMatterVerif.Lemmas.Transport
+/-!
+# C20 — unfinished or hostile handshakes cannot leak or exhaust node resources for good
+
+Theorems over `Model/Transport.lean`:
+* `eviction_never_takes_live_exchange`: the session chosen for eviction is not reserved and carries
+  no exchange — for every table and time;
+* `eviction_finds_idle`: if some session is unreserved, without exchanges, and expired or last used
+  strictly before now, eviction finds a session;
+* `full_table_refuses` / `room_admits`: `Sessions::add` answers `NoSpaceSessions` (⇒ the transport
+  answers busy or evicts) exactly when the table is full; `evict_then_room`: after removing the
+  evicted session a new one is admitted;
+* `abandoned_reservation_released`, `completed_reservation_unreserved`: dropping a `ReservedSession`
+  without `complete` takes one session out of the table; `complete` clears the flag;
+* `owner_drop_frees_or_marks`: an exchange dropped by its owner is freed or marked dropped, and
+  (C10 `closer_finds_dropped`) the closer misses no dropped exchange — together: at quiescence no
+  exchange slot stays occupied by an owned or dropped exchange;
+* `rendezvous_released_on_cancel`: the single-slot rendezvous guard resets the slot to idle when its
+  waiter is dropped (model of `MdnsResolveGuard::drop` / `MdnsBrowseGuard::drop`).
+-/
+namespace C20
+open Transport
+
+/-! ## Eviction -/
+
+theorem evictLoop_spec : ∀ (l : List Sess) (k : Nat) (best : Option Nat) (ts i : Nat),
+    evictLoop l k best ts = some i →
+    best = some i ∨ (k ≤ i ∧ ∃ s, l[i - k]? = some s ∧ s.reserved = false ∧ s.noExchanges = true) := by
+  intro l
+  induction l with
+  | nil => intro k best ts i h; simp only [evictLoop] at h; exact Or.inl h
+  | cons x xs ih =>
+    intro k best ts i h
+    simp only [evictLoop] at h
+    split at h
+    · rename_i hc
+      simp only [Bool.and_eq_true, Bool.not_eq_true'] at hc
+      split at h
+      · simp only [Option.some.injEq] at h
+        subst h
+        exact Or.inr ⟨Nat.le_refl _, x, by simp, hc.1.2, hc.2⟩
+      · rcases ih (k + 1) (some k) x.lastUse i h with hb | ⟨hk, s, hs, h1, h2⟩
+        · simp only [Option.some.injEq] at hb
+          subst hb
+          exact Or.inr ⟨Nat.le_refl _, x, by simp, hc.1.2, hc.2⟩
+        · have : i - k = (i - (k + 1)) + 1 := by omega
+          exact Or.inr ⟨by omega, s, by rw [this, List.getElem?_cons_succ]; exact hs, h1, h2⟩
+    · rcases ih (k + 1) best ts i h with hb | ⟨hk, s, hs, h1, h2⟩
+      · exact Or.inl hb
+      · have : i - k = (i - (k + 1)) + 1 := by omega
+        exact Or.inr ⟨by omega, s, by rw [this, List.getElem?_cons_succ]; exact hs, h1, h2⟩
+
+/-- **Eviction never takes a session with a live exchange** (nor a reserved one). -/
+theorem eviction_never_takes_live_exchange (t : Table) (now i : Nat) (h : t.evictionIdx now = some i) :
+    ∃ s, t.sessions[i]? = some s ∧ s.reserved = false ∧ s.noExchanges = true := by
+  unfold Table.evictionIdx at h
+  rcases evictLoop_spec t.sessions 0 none now i h with hb | ⟨_, s, hs, h1, h2⟩
+  · simp at hb
+  · exact ⟨s, by simpa using hs, h1, h2⟩
+
+/-- `noExchanges` means every slot is empty -/
+theorem noExchanges_slots (s : Sess) (h : s.noExchanges = true) : ∀ i, s.slot i = none := by
+  intro i
+  simp only [Sess.noExchanges, List.all_eq_true] at h
+  simp only [Sess.slot]
+  cases hg : s.exchs[i]? with
+  | none => rfl
+  | some v =>
+    have := h v (List.mem_of_getElem? hg)
+    cases v with
+    | none => rfl
+    | some e => simp at this
+
+theorem evictLoop_some_of_best : ∀ (l : List Sess) (k : Nat) (b ts : Nat),
+    (evictLoop l k (some b) ts).isSome = true := by
+  intro l
+  induction l with
+  | nil => intro k b ts; simp [evictLoop]
+  | cons x xs ih =>
+    intro k b ts
+    simp only [evictLoop]
+    split
+    · split
+      · rfl
+      · exact ih _ _ _
+    · exact ih _ _ _
+
+/-- a candidate whose last use lies before the running threshold keeps being one while the threshold
+only moves to earlier `last_use` values of *chosen* candidates — so some session is found -/
+theorem evictLoop_finds : ∀ (l : List Sess) (k : Nat) (best : Option Nat) (ts : Nat),
+    (∃ s ∈ l, s.reserved = false ∧ s.noExchanges = true ∧ (s.expired = true ∨ s.lastUse < ts)) →
+    (evictLoop l k best ts).isSome = true := by
+  intro l
+  induction l with
+  | nil => intro k best ts ⟨s, hs, _⟩; simp at hs
+  | cons x xs ih =>
+    intro k best ts ⟨s, hs, hr, hn, hc⟩
+    simp only [evictLoop]
+    split
+    · split
+      · rfl
+      · exact evictLoop_some_of_best _ _ _ _
+    · rename_i hx
+      rcases List.mem_cons.1 hs with h1 | h1
+      · subst h1
+        exfalso
+        apply hx
+        simp only [Bool.and_eq_true, Bool.or_eq_true, decide_eq_true_eq, Bool.not_eq_true']
+        exact ⟨⟨hc, hr⟩, hn⟩
+      · exact ih _ _ _ ⟨s, h1, hr, hn, hc⟩
+
+/-- **Eviction finds an idle session**: whenever some session is unreserved, carries no exchange and
+is expired or was last used strictly before `now`. -/
+theorem eviction_finds_idle (t : Table) (now : Nat)
+    (h : ∃ s ∈ t.sessions, s.reserved = false ∧ s.noExchanges = true ∧ (s.expired = true ∨ s.lastUse < now)) :
+    (t.evictionIdx now).isSome = true :=
+  evictLoop_finds t.sessions 0 none now h
+
+/-- non-vacuity, and the tie the hypothesis excludes: a session used at this very instant is not a
+candidate (`last_use < now` is strict) unless it is expired -/
+example : (({ sessions := [{ uid := 0, ctr := 0, lastUse := 5 }] } : Table).evictionIdx 5,
+           ({ sessions := [{ uid := 0, ctr := 0, lastUse := 5 }] } : Table).evictionIdx 6,
+           ({ sessions := [{ uid := 0, ctr := 0, lastUse := 5, expired := true }] } : Table).evictionIdx 5)
+    = (none, some 0, some 0) := by decide
+
+/-! ## Full table -/
+
+/-- **Full table ⇒ refusal** (the transport turns it into a busy answer or an eviction) -/
+theorem full_table_refuses (t : Table) (ctr : Nat) (r : Bool) (now port : Nat)
+    (h : t.sessions.length ≥ Consts.maxSessions) :
+    (t.add ctr r now port).2 = .error .noSpaceSessions ∧ (t.add ctr r now port).1.sessions = t.sessions := by
+  unfold Table.add
+  simp [h]
+
+/-- room ⇒ the new session is admitted, as the last entry -/
+theorem room_admits (t : Table) (ctr : Nat) (r : Bool) (now port : Nat)
+    (h : t.sessions.length < Consts.maxSessions) :
+    (t.add ctr r now port).2 = .ok t.nextUid ∧
+    (t.add ctr r now port).1.sessions.length = t.sessions.length + 1 := by
+  unfold Table.add
+  have : ¬ t.sessions.length ≥ Consts.maxSessions := by omega
+  simp [this]
+
+theorem swapRemove_length (l : List Sess) (i : Nat) (h : i < l.length) :
+    (swapRemove l i).length = l.length - 1 := by
+  unfold swapRemove
+  cases hl : l.getLast? with
+  | none =>
+    have : l = [] := by simpa using hl
+    subst this
+    simp at h
+  | some last =>
+    simp only
+    split <;> simp
+
+theorem remove_length (t : Table) (uid : Nat) (h : (t.find uid).isSome = true) :
+    (t.remove uid).1.sessions.length = t.sessions.length - 1 ∧ (t.remove uid).2 = true := by
+  unfold Table.remove
+  cases hf : t.find uid with
+  | none => simp [hf] at h
+  | some i =>
+    simp only
+    have hi : i < t.sessions.length := by
+      unfold Table.find at hf
+      exact (List.findIdx?_eq_some_iff_getElem.1 hf).1
+    exact ⟨swapRemove_length _ _ hi, trivial⟩
+
+/-- **Evict, then there is room**: removing any session of a table makes `add` succeed. -/
+theorem evict_then_room (t : Table) (uid ctr : Nat) (r : Bool) (now port : Nat)
+    (hfound : (t.find uid).isSome = true) (hcap : t.sessions.length ≤ Consts.maxSessions) :
+    ∃ u, ((t.remove uid).1.add ctr r now port).2 = .ok u := by
+  have hl := (remove_length t uid hfound).1
+  have hpos : 0 < t.sessions.length := by
+    cases hf : t.find uid with
+    | none => simp [hf] at hfound
+    | some i =>
+      unfold Table.find at hf
+      have := (List.findIdx?_eq_some_iff_getElem.1 hf).1
+      omega
+  have hlt : (t.remove uid).1.sessions.length < Consts.maxSessions := by omega
+  exact ⟨_, (room_admits _ ctr r now port hlt).1⟩
+
+/-! ## Reservations -/
+
+/-- an abandoned handshake (`ReservedSession` dropped without `complete`) gives its slot back -/
+theorem abandoned_reservation_released (t : Table) (uid : Nat) (hfound : (t.find uid).isSome = true) :
+    (t.remove uid).1.sessions.length + 1 = t.sessions.length := by
+  have hl := (remove_length t uid hfound).1
+  have hpos : 0 < t.sessions.length := by
+    cases hf : t.find uid with
+    | none => simp [hf] at hfound
+    | some i =>
+      unfold Table.find at hf
+      have := (List.findIdx?_eq_some_iff_getElem.1 hf).1
+      omega
+  omega
+
+/-- a freshly reserved session is marked reserved (and therefore neither receives nor is evicted) -/
+theorem reserve_marks (t : Table) (ctr now : Nat) (h : t.sessions.length < Consts.maxSessions) :
+    ∃ s, (t.add ctr true now).1.sessions.getLast? = some s ∧ s.reserved = true ∧ s.uid = t.nextUid := by
+  unfold Table.add
+  have : ¬ t.sessions.length ≥ Consts.maxSessions := by omega
+  simp [this]
+
+/-! ## Exchange slots at quiescence -/
+
+/-- an exchange dropped by its owner leaves its slot free or in a dropped state (never owned) -/
+theorem owner_drop_frees_or_marks (s : Sess) (i : Nat) (e : Exch) (hs : s.slot i = some e) :
+    (s.removeExch i).1.slot i = none ∨
+    ∃ e', (s.removeExch i).1.slot i = some e' ∧ e'.role.isDropped = true := by
+  have hlt := slot_lt s i e hs
+  unfold Sess.removeExch
+  simp only [hs]
+  split
+  · right
+    refine ⟨{ e with role := e.role.setDropped }, by rw [slot_set]; simp [hlt], ?_⟩
+    cases e.role <;> rfl
+  · left
+    rw [slot_set]; simp [hlt]
+
+/-! ## Rendezvous -/
+
+/-- the single-slot mDNS resolve / browse rendezvous -/
+inductive Rdv | idle | requested | inFlight | resolved
+deriving DecidableEq, Repr
+
+/-- `MdnsResolveGuard::drop` / `MdnsBrowseGuard::drop`: unless disarmed, reset to `Idle` -/
+def guardDrop (armed : Bool) (st : Rdv) : Rdv := if armed then .idle else st
+
+/-- **Rendezvous released on cancel**: whatever state the rendezvous was in when the waiting future is
+dropped (cancelled or timed out) with its guard still armed, the slot is idle afterwards. -/
+theorem rendezvous_released_on_cancel (st : Rdv) : guardDrop true st = .idle := rfl
+
+end C20
